@@ -195,6 +195,18 @@ def dpg_sac_cases(chk, rng, n):
         if not close(float(sl), spec):
             chk.fail("C12:sac_actor_loss:value", "SAC actor loss is not mean(alpha * log pi - min Q)", {"case": case2, "impl": float(sl), "documented": spec})
         gq_sac = nnx.grad(lambda q_, p_: sac.sac_actor_loss(p_, q_, alpha, jax.random.key(0), o), argnums=0)(q, pol)
+        # the same objective with critics whose output has shape (N,) instead of (N, 1)
+        class Flat(nnx.Module):
+            def __init__(self, net):
+                self.net = net
+
+            def __call__(self, x):
+                return self.net(x).squeeze(-1)
+        qf = ContinuousClippedDoubleQNet(Flat(q1), Flat(q2))
+        okf, slf = chk.impl_call("C12:sac_actor_loss:flat-critic-raised", case2, lambda: float(sac.sac_actor_loss(pol, qf, alpha, jax.random.key(0), o)))
+        if okf and not close(slf, spec):
+            chk.fail("C12:sac_actor_loss:value", "SAC actor loss with a critic of output shape (N,) is not mean(alpha * log pi - min Q)",
+                     {"case": {**case2, "critic_output_shape": "(N,)"}, "impl": slf, "documented": spec})
         exprs.append(f"(sr sf (M.sac_actor_loss float_ops {flit(alpha)} {t1(lp)} {t2(qm)}))")
         recs.append(("sac_actor", case2, float(sl)))
         # temperature: first step direction through the real update
